@@ -1726,7 +1726,10 @@ fn main() {
 	let dev_variants = arg_value(&run.args, "--dev-variants");
 	let on = |name: &str| only.as_deref().map(|o| o.split(',').any(|x| x == name)).unwrap_or(true);
 	let scale = if san.is_some() { 0.1 } else { 1.0 };
-	let budget_s = if san.is_some() { 600 } else { run.tier.pick(70, 600) };
+	// wall budget; `--budget-s N` overrides it (diagnostics on a loaded machine)
+	let budget_s = arg_value(&run.args, "--budget-s")
+		.and_then(|x| x.parse::<u64>().ok())
+		.unwrap_or(if san.is_some() { 600 } else { run.tier.pick(70, 600) });
 	let shared = Arc::new(Shared {
 		run,
 		t0: Instant::now(),
